@@ -61,8 +61,14 @@ theorem ex_step_running (i : Nat) (s : Exec.Shared) (l : Run.Local) (fb : FbScri
     simp only [Prod.mk.injEq] at he
     exact Or.inr ⟨a, b, hab, he.1.symm, he.2.symm⟩
 
-/-- Execute's decision and the fallback phase, transition by transition -/
+/-- what the caller gets when the run function is called directly (kill switch on) -/
+def ex_passOut (sc : Run.Script) : Out := if sc.panics then .runPanic else if sc.failed then .runErr else .ok
+
+/-- the kill-switch gate, Execute's decision and the fallback phase, transition by transition -/
 inductive ex_FbStep (i : Nat) (s : Exec.Shared) (sc : Run.Script) (fb : FbScript) : Exec.Pc → Exec.Shared → Exec.Pc → Prop
+  | gateOn : s.disabled = true → ex_FbStep i s sc fb .gate s .passthru
+  | gateOff : s.disabled = false → ex_FbStep i s sc fb .gate s .running
+  | pass : ex_FbStep i s sc fb .passthru { s with direct := s.direct ++ [i] } (.done (ex_passOut sc))
   | decManual : ex_FbStep i s sc fb (.decide .manual) s (.done .manual)
   | decPanic : ex_FbStep i s sc fb (.decide .panicked) s (.done .runPanic)
   | decOk (r : Run.Res) : r ≠ .manual → r ≠ .panicked → runFailed sc r = false → ex_FbStep i s sc fb (.decide r) s (.done .ok)
@@ -91,6 +97,23 @@ theorem ex_step_fb (i : Nat) (s : Exec.Shared) (l : Run.Local) (fb : FbScript) (
     ∃ pc', l' = .call l fb pc' ∧ ex_FbStep i s (ex_sc l.job) fb pc s' pc' := by
   cases pc with
   | running => exact absurd rfl hpc
+  | gate =>
+    simp only [Exec.step] at h
+    split at h
+    · rename_i h1
+      simp only [Option.some.injEq, Prod.mk.injEq] at h
+      obtain ⟨rfl, rfl⟩ := h
+      exact ⟨_, rfl, .gateOn h1⟩
+    · rename_i h1
+      simp only [Option.some.injEq, Prod.mk.injEq] at h
+      obtain ⟨rfl, rfl⟩ := h
+      exact ⟨_, rfl, .gateOff (by simpa using h1)⟩
+  | passthru =>
+    obtain ⟨job, lpc, sw⟩ := l
+    cases job <;>
+    (simp only [Exec.step, Option.some.injEq, Prod.mk.injEq] at h
+     obtain ⟨rfl, rfl⟩ := h
+     exact ⟨_, rfl, .pass⟩)
   | decide r =>
     obtain ⟨job, lpc, sw⟩ := l
     cases job <;>
@@ -185,8 +208,9 @@ theorem ex_step_fb_isSome (i : Nat) (s : Exec.Shared) (l : Run.Local) (fb : FbSc
     simp only [Exec.step]
     cases r <;> simp only [] <;> (repeat' split) <;> rfl
   | loadDisabled => simp only [Exec.step]; split <;> rfl
+  | gate => simp only [Exec.step]; split <;> rfl
   | fbLoadLimit obs => simp only [Exec.step]; split <;> rfl
-  | fbAdd | fbDeliverReject | fbInvoke | fbDeliver ok | fbDec o => simp [Exec.step]
+  | passthru | fbAdd | fbDeliverReject | fbInvoke | fbDeliver ok | fbDec o => simp [Exec.step]
 
 /-! ### the Conc/RunDyn view -/
 
@@ -203,8 +227,8 @@ def ex_pj : Exec.Job → RunDyn.Job
   | .close => .run .close
   | .reconfigure a b k => .reconfigure a b k
 
-theorem ex_proj_init (fo fc io : Bool) (m fm : Int) (fd : Bool) (jobs : List Exec.Job) :
-    ex_proj (Exec.init fo fc io m fm fd jobs) = RunDyn.init fo fc io m (jobs.map ex_pj) := by
+theorem ex_proj_init (fo fc io : Bool) (m fm : Int) (fd : Bool) (jobs : List Exec.Job) (dis : Bool) :
+    ex_proj (Exec.init fo fc io m fm fd jobs dis) = RunDyn.init fo fc io m (jobs.map ex_pj) := by
   simp only [ex_proj, Exec.init, RunDyn.init, List.map_map]
   congr 1
   apply List.map_congr_left
@@ -256,27 +280,27 @@ theorem ex_lift_run (Inv : Config Run.Shared RunDyn.Local → Prop)
     (hstep : ∀ (c : Config Run.Shared RunDyn.Local) (i : Nat) (l : RunDyn.Local) (s' : Run.Shared) (l' : RunDyn.Local),
       Inv c → c.locals[i]? = some l → RunDyn.step i c.shared l = some (s', l') →
       Inv { shared := s', locals := c.locals.set i l' })
-    (fo fc io : Bool) (m fm : Int) (fd : Bool) (jobs : List Exec.Job)
+    (fo fc io : Bool) (m fm : Int) (fd : Bool) (jobs : List Exec.Job) (dis : Bool)
     (hinit : Inv (RunDyn.init fo fc io m (jobs.map ex_pj))) (sched : List Nat) :
-    Inv (ex_proj (run Exec.sys (Exec.init fo fc io m fm fd jobs) sched)) :=
+    Inv (ex_proj (run Exec.sys (Exec.init fo fc io m fm fd jobs dis) sched)) :=
   CM.Props.C04.inv_all_schedules Exec.sys (fun c => Inv (ex_proj c))
     (fun c i l s' l' hc hl hs => ex_lift Inv hstep c i l s' l' hc hl hs) sched _
     (by rw [ex_proj_init]; exact hinit)
 
-theorem ex_EInv_run (fo fc io : Bool) (m fm : Int) (fd : Bool) (jobs : List Exec.Job) (sched : List Nat) :
-    rd_EInv (jobs.map ex_pj) (ex_proj (run Exec.sys (Exec.init fo fc io m fm fd jobs) sched)) :=
+theorem ex_EInv_run (fo fc io : Bool) (m fm : Int) (fd : Bool) (jobs : List Exec.Job) (dis : Bool) (sched : List Nat) :
+    rd_EInv (jobs.map ex_pj) (ex_proj (run Exec.sys (Exec.init fo fc io m fm fd jobs dis) sched)) :=
   ex_lift_run (rd_EInv (jobs.map ex_pj)) (fun c i l s' l' hc hl hs => rd_EInv_step _ c i l s' l' hc hl hs)
-    fo fc io m fm fd jobs (rd_EInv_init fo fc io m _) sched
+    fo fc io m fm fd jobs dis (rd_EInv_init fo fc io m _) sched
 
-theorem ex_GInv_run (fo fc io : Bool) (m fm : Int) (fd : Bool) (jobs : List Exec.Job) (sched : List Nat) :
-    rd_GInv (ex_proj (run Exec.sys (Exec.init fo fc io m fm fd jobs) sched)) :=
+theorem ex_GInv_run (fo fc io : Bool) (m fm : Int) (fd : Bool) (jobs : List Exec.Job) (dis : Bool) (sched : List Nat) :
+    rd_GInv (ex_proj (run Exec.sys (Exec.init fo fc io m fm fd jobs dis) sched)) :=
   ex_lift_run rd_GInv (fun c i l s' l' hc hl hs => rd_GInv_step c i l s' l' hc hl hs)
-    fo fc io m fm fd jobs (rd_GInv_init fo fc io m _) sched
+    fo fc io m fm fd jobs dis (rd_GInv_init fo fc io m _) sched
 
-theorem ex_TInv_run (fo fc io : Bool) (m fm : Int) (fd : Bool) (jobs : List Exec.Job) (sched : List Nat) :
-    rd_TInv io (ex_proj (run Exec.sys (Exec.init fo fc io m fm fd jobs) sched)) :=
+theorem ex_TInv_run (fo fc io : Bool) (m fm : Int) (fd : Bool) (jobs : List Exec.Job) (dis : Bool) (sched : List Nat) :
+    rd_TInv io (ex_proj (run Exec.sys (Exec.init fo fc io m fm fd jobs dis) sched)) :=
   ex_lift_run (rd_TInv io) (fun c i l s' l' hc hl hs => rd_TInv_step io c i l s' l' hc hl hs)
-    fo fc io m fm fd jobs (rd_TInv_init fo fc io m _) sched
+    fo fc io m fm fd jobs dis (rd_TInv_init fo fc io m _) sched
 
 /-! ### the fallback phase, thread by thread -/
 
@@ -352,68 +376,126 @@ def ex_outEvs : Out → List FbEv
   | .fbPanic => [.invoked]
   | _ => []
 
-/-- what a call thread's own fallback events are and what it knows, by program counter (`lpc` = the Run thread's) -/
-def ex_ok (sc : Run.Script) (fb : FbScript) (fd : Bool) (fm : Int) (lpc : Run.Pc) : Exec.Pc → List FbEv → Prop
-  | .running, evs => evs = []
-  | .decide r, evs => evs = [] ∧ lpc = .done r
-  | .loadDisabled, evs => evs = [] ∧ ∃ r, lpc = .done r ∧ ex_pre sc fb r
-  | .fbAdd, evs | .fbLoadLimit _, evs | .fbInvoke, evs => evs = [] ∧ fd = false ∧ ∃ r, lpc = .done r ∧ ex_pre sc fb r
-  | .fbDeliverReject, evs => evs = [] ∧ fd = false ∧ 0 ≤ fm ∧ ∃ r, lpc = .done r ∧ ex_pre sc fb r
-  | .fbDeliver ok, evs =>
-    evs = [.invoked] ∧ fd = false ∧ ok = !fb.fails ∧ fb.panics = false ∧ ∃ r, lpc = .done r ∧ ex_pre sc fb r
-  | .fbDec o, evs | .done o, evs => evs = ex_outEvs o ∧ ∃ r, lpc = .done r ∧ ex_contract sc fb fd fm r o
+/-- how often thread `i`'s run function was called directly -/
+def ex_dc (i : Nat) (direct : List Nat) : Nat := (direct.filter (· == i)).length
+
+theorem ex_dc_append_self (i : Nat) (d : List Nat) : ex_dc i (d ++ [i]) = ex_dc i d + 1 := by
+  simp [ex_dc, List.filter_append]
+
+theorem ex_dc_append_other (i t : Nat) (d : List Nat) (h : t ≠ i) : ex_dc i (d ++ [t]) = ex_dc i d := by
+  simp [ex_dc, List.filter_append, h]
+
+theorem ex_outEvs_passOut (sc : Run.Script) : ex_outEvs (ex_passOut sc) = [] := by
+  unfold ex_passOut
+  split
+  · rfl
+  · split <;> rfl
+
+theorem ex_passOut_ne_limit (sc : Run.Script) : Out.limit ≠ ex_passOut sc := by
+  unfold ex_passOut
+  split
+  · simp
+  · split <;> simp
+
+/-- an OpenCircuit / CloseCircuit thread -/
+def ex_man (job : Run.Job) : Prop := ∀ sc, job ≠ .call sc
+
+/-- what a call thread's own fallback events (`evs`) and direct calls (`dc`) are and what it knows, by program counter
+    (`lpc` = the Run thread's); with the kill switch on (`dis`) only OpenCircuit / CloseCircuit threads get past the gate -/
+def ex_ok (job : Run.Job) (fb : FbScript) (fd : Bool) (fm : Int) (dis : Bool) (lpc : Run.Pc) :
+    Exec.Pc → List FbEv → Nat → Prop
+  | .gate, evs, dc => evs = [] ∧ dc = 0 ∧ lpc = .aFO
+  | .passthru, evs, dc => evs = [] ∧ dc = 0 ∧ lpc = .aFO ∧ dis = true
+  | .running, evs, dc => evs = [] ∧ dc = 0 ∧ (dis = true → ex_man job)
+  | .decide r, evs, dc => evs = [] ∧ dc = 0 ∧ lpc = .done r ∧ (dis = true → r = .manual ∧ ex_man job)
+  | .loadDisabled, evs, dc => evs = [] ∧ dc = 0 ∧ dis = false ∧ ∃ r, lpc = .done r ∧ ex_pre (ex_sc job) fb r
+  | .fbAdd, evs, dc | .fbLoadLimit _, evs, dc | .fbInvoke, evs, dc =>
+    evs = [] ∧ dc = 0 ∧ dis = false ∧ fd = false ∧ ∃ r, lpc = .done r ∧ ex_pre (ex_sc job) fb r
+  | .fbDeliverReject, evs, dc =>
+    evs = [] ∧ dc = 0 ∧ dis = false ∧ fd = false ∧ 0 ≤ fm ∧ ∃ r, lpc = .done r ∧ ex_pre (ex_sc job) fb r
+  | .fbDeliver ok, evs, dc =>
+    evs = [.invoked] ∧ dc = 0 ∧ dis = false ∧ fd = false ∧ ok = !fb.fails ∧ fb.panics = false ∧
+      ∃ r, lpc = .done r ∧ ex_pre (ex_sc job) fb r
+  | .fbDec o, evs, dc =>
+    evs = ex_outEvs o ∧ dc = 0 ∧ dis = false ∧ ∃ r, lpc = .done r ∧ ex_contract (ex_sc job) fb fd fm r o
+  | .done o, evs, dc =>
+    (evs = ex_outEvs o ∧ dc = 0 ∧ (dis = true → ex_man job) ∧ ∃ r, lpc = .done r ∧ ex_contract (ex_sc job) fb fd fm r o) ∨
+    (dis = true ∧ lpc = .aFO ∧ evs = [] ∧ dc = 1 ∧ o = ex_passOut (ex_sc job))
 
 theorem ex_FbStep_frame (i : Nat) (s : Exec.Shared) (sc : Run.Script) (fb : FbScript) (pc : Exec.Pc) (s' : Exec.Shared)
     (pc' : Exec.Pc) (h : ex_FbStep i s sc fb pc s' pc') :
-    s'.r = s.r ∧ s'.fbLimit = s.fbLimit ∧ s'.fbDisabled = s.fbDisabled ∧
-      ∀ j, i ≠ j → ex_fevs j s'.fbEvents = ex_fevs j s.fbEvents := by
-  cases h <;> refine ⟨rfl, rfl, rfl, ?_⟩ <;> intro j hj <;> first | rfl | exact ex_fevs_append_other j i _ _ hj
+    s'.r = s.r ∧ s'.fbLimit = s.fbLimit ∧ s'.fbDisabled = s.fbDisabled ∧ s'.disabled = s.disabled ∧
+      ∀ j, i ≠ j → ex_fevs j s'.fbEvents = ex_fevs j s.fbEvents ∧ ex_dc j s'.direct = ex_dc j s.direct := by
+  cases h <;> refine ⟨rfl, rfl, rfl, rfl, ?_⟩ <;> intro j hj <;>
+    first
+      | exact ⟨rfl, rfl⟩
+      | exact ⟨ex_fevs_append_other j i _ _ hj, rfl⟩
+      | exact ⟨rfl, ex_dc_append_other j i _ hj⟩
 
-theorem ex_FbStep_self (i : Nat) (s : Exec.Shared) (sc : Run.Script) (fb : FbScript) (pc : Exec.Pc) (s' : Exec.Shared)
-    (pc' : Exec.Pc) (lpc : Run.Pc) (h : ex_FbStep i s sc fb pc s' pc')
-    (hok : ex_ok sc fb s.fbDisabled s.fbLimit lpc pc (ex_fevs i s.fbEvents)) :
-    ex_ok sc fb s.fbDisabled s.fbLimit lpc pc' (ex_fevs i s'.fbEvents) := by
+theorem ex_FbStep_self (i : Nat) (s : Exec.Shared) (job : Run.Job) (fb : FbScript) (pc : Exec.Pc) (s' : Exec.Shared)
+    (pc' : Exec.Pc) (lpc : Run.Pc) (h : ex_FbStep i s (ex_sc job) fb pc s' pc')
+    (hok : ex_ok job fb s.fbDisabled s.fbLimit s.disabled lpc pc (ex_fevs i s.fbEvents) (ex_dc i s.direct)) :
+    ex_ok job fb s.fbDisabled s.fbLimit s.disabled lpc pc' (ex_fevs i s'.fbEvents) (ex_dc i s'.direct) := by
   cases h with
-  | decManual => exact ⟨by rw [hok.1]; rfl, _, hok.2, by simp [ex_contract]⟩
-  | decPanic => exact ⟨by rw [hok.1]; rfl, _, hok.2, by simp [ex_contract]⟩
+  | gateOn hd => exact ⟨hok.1, hok.2.1, hok.2.2, hd⟩
+  | gateOff hd => exact ⟨hok.1, hok.2.1, fun e => by rw [hd] at e; cases e⟩
+  | pass =>
+    obtain ⟨he, hdc, hl, hd⟩ := hok
+    exact Or.inr ⟨hd, hl, he, by rw [ex_dc_append_self, hdc], rfl⟩
+  | decManual =>
+    obtain ⟨he, hdc, hl, hd⟩ := hok
+    exact Or.inl ⟨by rw [he]; rfl, hdc, fun e => (hd e).2, _, hl, by simp [ex_contract]⟩
+  | decPanic =>
+    obtain ⟨he, hdc, hl, hd⟩ := hok
+    exact Or.inl ⟨by rw [he]; rfl, hdc, fun e => (hd e).2, _, hl, by simp [ex_contract]⟩
   | decOk r h1 h2 h3 =>
-    refine ⟨by rw [hok.1]; rfl, _, hok.2, ?_⟩
+    obtain ⟨he, hdc, hl, hd⟩ := hok
+    refine Or.inl ⟨by rw [he]; rfl, hdc, fun e => (hd e).2, _, hl, ?_⟩
     cases r <;> simp_all [ex_contract]
   | decBad r h1 h2 h3 h4 =>
-    refine ⟨by rw [hok.1]; rfl, _, hok.2, ?_⟩
+    obtain ⟨he, hdc, hl, hd⟩ := hok
+    refine Or.inl ⟨by rw [he]; rfl, hdc, fun e => (hd e).2, _, hl, ?_⟩
     cases r <;> simp_all [ex_contract]
   | decNoFb r h1 h2 h3 h4 h5 =>
-    refine ⟨by rw [hok.1]; rfl, _, hok.2, ?_⟩
+    obtain ⟨he, hdc, hl, hd⟩ := hok
+    refine Or.inl ⟨by rw [he]; rfl, hdc, fun e => (hd e).2, _, hl, ?_⟩
     cases r <;> simp_all [ex_contract]
-  | decFb r h1 h2 h3 h4 h5 => exact ⟨hok.1, _, hok.2, h1, h2, h3, h4, h5⟩
+  | decFb r h1 h2 h3 h4 h5 =>
+    obtain ⟨he, hdc, hl, hd⟩ := hok
+    refine ⟨he, hdc, ?_, _, hl, h1, h2, h3, h4, h5⟩
+    cases hs : s.disabled with
+    | false => rfl
+    | true => exact absurd (hd hs).1 h1
   | disabled hd =>
-    obtain ⟨he, r, hr, hp⟩ := hok
-    refine ⟨by rw [he]; rfl, r, hr, ?_⟩
-    rw [hd]; exact ex_contract_disabled sc fb _ r hp
-  | enabled hd => exact ⟨hok.1, hd, hok.2⟩
+    obtain ⟨he, hdc, hds, r, hr, hp⟩ := hok
+    refine Or.inl ⟨by rw [he]; rfl, hdc, (fun e => by rw [hds] at e; cases e), r, hr, ?_⟩
+    rw [hd]; exact ex_contract_disabled _ fb _ r hp
+  | enabled hd => exact ⟨hok.1, hok.2.1, hok.2.2.1, hd, hok.2.2.2⟩
   | add => exact hok
-  | refuse obs hlim => exact ⟨hok.1, hok.2.1, hlim.1, hok.2.2⟩
+  | refuse obs hlim => exact ⟨hok.1, hok.2.1, hok.2.2.1, hok.2.2.2.1, hlim.1, hok.2.2.2.2⟩
   | grant obs hlim => exact hok
   | reject =>
-    obtain ⟨he, hd, hm, r, hr, hp⟩ := hok
-    refine ⟨by simp only [ex_fevs_append_self, he]; rfl, r, hr, ?_⟩
-    rw [hd]; exact ex_contract_fb sc fb _ r _ hp (Or.inl ⟨rfl, hm⟩)
+    obtain ⟨he, hdc, hds, hd, hm, r, hr, hp⟩ := hok
+    refine ⟨by simp only [ex_fevs_append_self, he]; rfl, hdc, hds, r, hr, ?_⟩
+    rw [hd]; exact ex_contract_fb _ fb _ r _ hp (Or.inl ⟨rfl, hm⟩)
   | invokePanic hpn =>
-    obtain ⟨he, hd, r, hr, hp⟩ := hok
-    refine ⟨by simp only [ex_fevs_append_self, he]; rfl, r, hr, ?_⟩
-    rw [hd]; exact ex_contract_fb sc fb _ r _ hp (Or.inr (Or.inl ⟨rfl, hpn⟩))
+    obtain ⟨he, hdc, hds, hd, r, hr, hp⟩ := hok
+    refine ⟨by simp only [ex_fevs_append_self, he]; rfl, hdc, hds, r, hr, ?_⟩
+    rw [hd]; exact ex_contract_fb _ fb _ r _ hp (Or.inr (Or.inl ⟨rfl, hpn⟩))
   | invokeRet hpn =>
-    obtain ⟨he, hd, r, hr, hp⟩ := hok
-    exact ⟨by simp only [ex_fevs_append_self, he]; rfl, hd, rfl, hpn, r, hr, hp⟩
+    obtain ⟨he, hdc, hds, hd, r, hr, hp⟩ := hok
+    exact ⟨by simp only [ex_fevs_append_self, he]; rfl, hdc, hds, hd, rfl, hpn, r, hr, hp⟩
   | deliverOk =>
-    obtain ⟨he, hd, hf, hpn, r, hr, hp⟩ := hok
-    refine ⟨by simp only [ex_fevs_append_self, he]; rfl, r, hr, ?_⟩
-    rw [hd]; exact ex_contract_fb sc fb _ r _ hp (Or.inr (Or.inr (Or.inl ⟨rfl, hpn, by simpa using hf⟩)))
+    obtain ⟨he, hdc, hds, hd, hf, hpn, r, hr, hp⟩ := hok
+    refine ⟨by simp only [ex_fevs_append_self, he]; rfl, hdc, hds, r, hr, ?_⟩
+    rw [hd]; exact ex_contract_fb _ fb _ r _ hp (Or.inr (Or.inr (Or.inl ⟨rfl, hpn, by simpa using hf⟩)))
   | deliverErr =>
-    obtain ⟨he, hd, hf, hpn, r, hr, hp⟩ := hok
-    refine ⟨by simp only [ex_fevs_append_self, he]; rfl, r, hr, ?_⟩
-    rw [hd]; exact ex_contract_fb sc fb _ r _ hp (Or.inr (Or.inr (Or.inr ⟨rfl, hpn, by simpa using hf⟩)))
-  | dec o => exact hok
+    obtain ⟨he, hdc, hds, hd, hf, hpn, r, hr, hp⟩ := hok
+    refine ⟨by simp only [ex_fevs_append_self, he]; rfl, hdc, hds, r, hr, ?_⟩
+    rw [hd]; exact ex_contract_fb _ fb _ r _ hp (Or.inr (Or.inr (Or.inr ⟨rfl, hpn, by simpa using hf⟩)))
+  | dec o =>
+    obtain ⟨he, hdc, hds, hc⟩ := hok
+    exact Or.inl ⟨he, hdc, (fun e => by rw [hds] at e; cases e), hc⟩
 
 def ex_jobOf : Exec.Job → Option (Run.Job × FbScript)
   | .exec sc fb => some (.call sc, fb)
@@ -421,66 +503,103 @@ def ex_jobOf : Exec.Job → Option (Run.Job × FbScript)
   | .close => some (.close, {})
   | .reconfigure .. => none
 
-def ex_okL (jobs : List Exec.Job) (fd : Bool) (fm : Int) (i : Nat) (evs : List FbEv) : Option Exec.Local → Prop
-  | some (.call l fb pc) => (jobs[i]?).bind ex_jobOf = some (l.job, fb) ∧ ex_ok (ex_sc l.job) fb fd fm l.pc pc evs
-  | some (.op ..) => evs = []
-  | none => evs = []
+def ex_okL (jobs : List Exec.Job) (fd : Bool) (fm : Int) (dis : Bool) (i : Nat) (evs : List FbEv) (dc : Nat) :
+    Option Exec.Local → Prop
+  | some (.call l fb pc) => (jobs[i]?).bind ex_jobOf = some (l.job, fb) ∧ ex_ok l.job fb fd fm dis l.pc pc evs dc
+  | some (.op ..) => evs = [] ∧ dc = 0
+  | none => evs = [] ∧ dc = 0
 
-structure ex_FInv (jobs : List Exec.Job) (fd : Bool) (fm : Int) (c : Config Exec.Shared Exec.Local) : Prop where
+structure ex_FInv (jobs : List Exec.Job) (fd : Bool) (fm : Int) (dis : Bool) (c : Config Exec.Shared Exec.Local) : Prop where
   lim : c.shared.fbLimit = fm
-  dis : c.shared.fbDisabled = fd
-  ok : ∀ i, ex_okL jobs fd fm i (ex_fevs i c.shared.fbEvents) c.locals[i]?
+  fdis : c.shared.fbDisabled = fd
+  kill : c.shared.disabled = dis
+  ok : ∀ i, ex_okL jobs fd fm dis i (ex_fevs i c.shared.fbEvents) (ex_dc i c.shared.direct) c.locals[i]?
 
-theorem ex_FInv_init (fo fc io : Bool) (m fm : Int) (fd : Bool) (jobs : List Exec.Job) :
-    ex_FInv jobs fd fm (Exec.init fo fc io m fm fd jobs) := by
-  refine ⟨rfl, rfl, ?_⟩
+theorem ex_FInv_init (fo fc io : Bool) (m fm : Int) (fd : Bool) (jobs : List Exec.Job) (dis : Bool) :
+    ex_FInv jobs fd fm dis (Exec.init fo fc io m fm fd jobs dis) := by
+  refine ⟨rfl, rfl, rfl, ?_⟩
   intro i
   simp only [Exec.init, List.getElem?_map]
   cases hj : jobs[i]? with
-  | none => simp [ex_okL, ex_fevs]
-  | some j => cases j <;> simp [Exec.startLocal, ex_okL, ex_jobOf, ex_ok, ex_fevs, hj]
+  | none => simp [ex_okL, ex_fevs, ex_dc]
+  | some j =>
+    cases j <;> simp [Exec.startLocal, ex_okL, ex_jobOf, ex_ok, ex_fevs, ex_dc, hj, Run.startPc, ex_man]
 
-theorem ex_FInv_step (jobs : List Exec.Job) (fd : Bool) (fm : Int) (c : Config Exec.Shared Exec.Local) (i : Nat)
-    (l : Exec.Local) (s' : Exec.Shared) (l' : Exec.Local) (I : ex_FInv jobs fd fm c) (hl : c.locals[i]? = some l)
-    (hs : Exec.step i c.shared l = some (s', l')) : ex_FInv jobs fd fm { shared := s', locals := c.locals.set i l' } := by
+/-- an OpenCircuit / CloseCircuit thread's `c.run` ends as `manual` -/
+theorem ex_man_done (jobs : List RunDyn.Job) (c : Config Exec.Shared Exec.Local) (E : rd_EInv jobs (ex_proj c)) (i : Nat)
+    (l : Run.Local) (fb : FbScript) (pc : Exec.Pc) (hl : c.locals[i]? = some (.call l fb pc)) (hm : ex_man l.job) :
+    l.pc = .done .manual ∨ ∃ tl, l.pc = .trans tl .manual := by
+  have h := E i
+  have hpl : (ex_proj c).locals[i]? = some (.call l) := by simp [ex_proj, List.getElem?_map, hl, ex_pl]
+  rw [hpl] at h
+  obtain ⟨_, hok⟩ := h
+  obtain ⟨job, lpc, sw⟩ := l
+  cases job with
+  | call sc => exact absurd rfl (hm sc)
+  | «open» => exact hok.2
+  | close => exact hok.2
+
+theorem ex_FInv_step (jobs : List Exec.Job) (fd : Bool) (fm : Int) (dis : Bool) (c : Config Exec.Shared Exec.Local) (i : Nat)
+    (l : Exec.Local) (s' : Exec.Shared) (l' : Exec.Local) (jobs' : List RunDyn.Job) (E : rd_EInv jobs' (ex_proj c))
+    (I : ex_FInv jobs fd fm dis c) (hl : c.locals[i]? = some l)
+    (hs : Exec.step i c.shared l = some (s', l')) : ex_FInv jobs fd fm dis { shared := s', locals := c.locals.set i l' } := by
   have hilt := Call.ccall_lt_of_getElem? hl
   have hi := I.ok i
   rw [hl] at hi
   -- the frame: the settings are static, other threads' events untouched; what remains is the stepping thread
-  suffices h : s'.fbLimit = c.shared.fbLimit ∧ s'.fbDisabled = c.shared.fbDisabled ∧
-      (∀ j, i ≠ j → ex_fevs j s'.fbEvents = ex_fevs j c.shared.fbEvents) ∧
-      ex_okL jobs fd fm i (ex_fevs i s'.fbEvents) (some l') by
-    obtain ⟨h1, h2, h3, h4⟩ := h
-    refine ⟨h1.trans I.lim, h2.trans I.dis, ?_⟩
+  suffices h : s'.fbLimit = c.shared.fbLimit ∧ s'.fbDisabled = c.shared.fbDisabled ∧ s'.disabled = c.shared.disabled ∧
+      (∀ j, i ≠ j → ex_fevs j s'.fbEvents = ex_fevs j c.shared.fbEvents ∧ ex_dc j s'.direct = ex_dc j c.shared.direct) ∧
+      ex_okL jobs fd fm dis i (ex_fevs i s'.fbEvents) (ex_dc i s'.direct) (some l') by
+    obtain ⟨h1, h2, h0, h3, h4⟩ := h
+    refine ⟨h1.trans I.lim, h2.trans I.fdis, h0.trans I.kill, ?_⟩
     intro j
     by_cases hij : i = j
     · subst hij
       simp only [List.getElem?_set_self hilt]
       exact h4
-    · simp only [List.getElem?_set_ne hij, h3 j hij]
+    · simp only [List.getElem?_set_ne hij, (h3 j hij).1, (h3 j hij).2]
       exact I.ok j
   cases l with
   | op fo fc m k =>
     obtain ⟨sr, k', _, rfl, rfl⟩ := ex_step_op i _ fo fc m k s' l' hs
-    exact ⟨rfl, rfl, fun _ _ => rfl, hi⟩
+    exact ⟨rfl, rfl, rfl, fun _ _ => ⟨rfl, rfl⟩, hi⟩
   | call l fb pc =>
     by_cases hpc : pc = .running
     · subst hpc
       rcases ex_step_running i _ l fb s' l' hs with ⟨r, hr, rfl, rfl⟩ | ⟨sr, m, h1, rfl, rfl⟩
-      · exact ⟨rfl, rfl, fun _ _ => rfl, hi.1, hi.2, hr⟩
-      · refine ⟨rfl, rfl, fun _ _ => rfl, ?_, hi.2⟩
-        rw [(re_step_events i _ _ _ _ h1).1]; exact hi.1
+      · refine ⟨rfl, rfl, rfl, fun _ _ => ⟨rfl, rfl⟩, hi.1, hi.2.1, hi.2.2.1, hr, ?_⟩
+        intro hd
+        have hm := hi.2.2.2 hd
+        refine ⟨?_, hm⟩
+        rcases ex_man_done jobs' c E i l fb _ hl hm with h | ⟨tl, h⟩ <;> rw [hr] at h <;> cases h
+        rfl
+      · have hjob := (re_step_events i _ _ _ _ h1).1
+        refine ⟨rfl, rfl, rfl, fun _ _ => ⟨rfl, rfl⟩, ?_, ?_⟩
+        · rw [hjob]; exact hi.1
+        · rw [hjob]; exact hi.2
     · obtain ⟨pc', rfl, hst⟩ := ex_step_fb i _ l fb pc s' l' hpc hs
-      obtain ⟨_, f1, f2, f3⟩ := ex_FbStep_frame i _ _ fb pc s' pc' hst
-      refine ⟨f1, f2, f3, hi.1, ?_⟩
-      have := ex_FbStep_self i _ _ fb pc s' pc' l.pc hst (by rw [I.lim, I.dis]; exact hi.2)
-      rw [I.lim, I.dis] at this
+      obtain ⟨_, f1, f2, f0, f3⟩ := ex_FbStep_frame i _ _ fb pc s' pc' hst
+      refine ⟨f1, f2, f0, f3, hi.1, ?_⟩
+      have := ex_FbStep_self i _ l.job fb pc s' pc' l.pc hst (by rw [I.lim, I.fdis, I.kill]; exact hi.2)
+      rw [I.lim, I.fdis, I.kill] at this
       exact this
 
-theorem ex_FInv_run (fo fc io : Bool) (m fm : Int) (fd : Bool) (jobs : List Exec.Job) (sched : List Nat) :
-    ex_FInv jobs fd fm (run Exec.sys (Exec.init fo fc io m fm fd jobs) sched) :=
-  CM.Props.C04.inv_all_schedules Exec.sys (ex_FInv jobs fd fm)
-    (fun c i l s' l' hc hl hs => ex_FInv_step jobs fd fm c i l s' l' hc hl hs) sched _ (ex_FInv_init fo fc io m fm fd jobs)
+/-- the two invariants together (the fallback-phase one leans on the run events: an OpenCircuit ends as `manual`) -/
+structure ex_Inv (jobs : List Exec.Job) (fd : Bool) (fm : Int) (dis : Bool) (c : Config Exec.Shared Exec.Local) : Prop where
+  E : rd_EInv (jobs.map ex_pj) (ex_proj c)
+  F : ex_FInv jobs fd fm dis c
+
+theorem ex_Inv_run (fo fc io : Bool) (m fm : Int) (fd : Bool) (jobs : List Exec.Job) (dis : Bool) (sched : List Nat) :
+    ex_Inv jobs fd fm dis (run Exec.sys (Exec.init fo fc io m fm fd jobs dis) sched) :=
+  CM.Props.C04.inv_all_schedules Exec.sys (ex_Inv jobs fd fm dis)
+    (fun c i l s' l' hc hl hs =>
+      ⟨ex_lift (rd_EInv (jobs.map ex_pj)) (fun c i l s' l' hc hl hs => rd_EInv_step _ c i l s' l' hc hl hs) c i l s' l' hc.E hl hs,
+       ex_FInv_step jobs fd fm dis c i l s' l' _ hc.E hc.F hl hs⟩) sched _
+    ⟨by rw [ex_proj_init]; exact rd_EInv_init fo fc io m _, ex_FInv_init fo fc io m fm fd jobs dis⟩
+
+theorem ex_FInv_run (fo fc io : Bool) (m fm : Int) (fd : Bool) (jobs : List Exec.Job) (dis : Bool) (sched : List Nat) :
+    ex_FInv jobs fd fm dis (run Exec.sys (Exec.init fo fc io m fm fd jobs dis) sched) :=
+  (ex_Inv_run fo fc io m fm fd jobs dis sched).F
 
 /-! ### the fallback bulkhead: Lemmas/Conc's `GInv`, the ghost region existentially bound -/
 
@@ -501,8 +620,8 @@ def ex_glL : Exec.Local → Gauge.Local
 def ex_BInv (fm : Int) (c : Config Exec.Shared Exec.Local) : Prop :=
   ∃ region, GInv fm { gauge := c.shared.fbGauge, limit := c.shared.fbLimit, region := region } (c.locals.map ex_glL)
 
-theorem ex_BInv_init (fo fc io : Bool) (m fm : Int) (fd : Bool) (jobs : List Exec.Job) :
-    ex_BInv fm (Exec.init fo fc io m fm fd jobs) := by
+theorem ex_BInv_init (fo fc io : Bool) (m fm : Int) (fd : Bool) (jobs : List Exec.Job) (dis : Bool) :
+    ex_BInv fm (Exec.init fo fc io m fm fd jobs dis) := by
   refine ⟨[], ?_⟩
   have : (jobs.map Exec.startLocal).map ex_glL = List.replicate jobs.length .idle := by
     induction jobs with
@@ -532,7 +651,7 @@ theorem ex_BInv_step (fm : Int) (c : Config Exec.Shared Exec.Local) (i : Nat) (l
     · obtain ⟨pc', rfl, hst⟩ := ex_step_fb i _ l fb pc s' l' hpc hs
       simp only [ex_glL] at hgl ⊢
       cases hst with
-      | decManual | decPanic | decOk | decBad | decNoFb | decFb | disabled | enabled | reject | invokePanic
+      | gateOn | gateOff | pass | decManual | decPanic | decOk | decBad | decNoFb | decFb | disabled | enabled | reject | invokePanic
         | invokeRet | deliverOk | deliverErr =>
         exact ⟨reg, G.local_step hgl rfl rfl (fun e h => h)⟩
       | add => exact ⟨_, G.enter_step hgl⟩
@@ -542,10 +661,10 @@ theorem ex_BInv_step (fm : Int) (c : Config Exec.Shared Exec.Local) (i : Nat) (l
         have hr : inRegion (ex_gl (.fbDec o)) = true := by cases o <;> rfl
         exact ⟨_, G.exit_step true hgl hr⟩
 
-theorem ex_BInv_run (fo fc io : Bool) (m fm : Int) (fd : Bool) (jobs : List Exec.Job) (sched : List Nat) :
-    ex_BInv fm (run Exec.sys (Exec.init fo fc io m fm fd jobs) sched) :=
+theorem ex_BInv_run (fo fc io : Bool) (m fm : Int) (fd : Bool) (jobs : List Exec.Job) (dis : Bool) (sched : List Nat) :
+    ex_BInv fm (run Exec.sys (Exec.init fo fc io m fm fd jobs dis) sched) :=
   CM.Props.C04.inv_all_schedules Exec.sys (ex_BInv fm)
-    (fun c i l s' l' hc hl hs => ex_BInv_step fm c i l s' l' hc hl hs) sched _ (ex_BInv_init fo fc io m fm fd jobs)
+    (fun c i l s' l' hc hl hs => ex_BInv_step fm c i l s' l' hc hl hs) sched _ (ex_BInv_init fo fc io m fm fd jobs dis)
 
 theorem ex_fbInFlight_eq (c : Config Exec.Shared Exec.Local) :
     Exec.fbInFlight c = ((c.locals.map ex_glL).filter (· == .running)).length := by
@@ -583,8 +702,8 @@ theorem ex_cnt_zero (ls : List RunDyn.Local) (h : ∀ l ∈ ls, rd_wL l = 0) : r
     simp only [rd_cnt, h a (List.mem_cons_self ..), ih (fun l hl => h l (List.mem_cons_of_mem _ hl))]
     rfl
 
-theorem ex_allDone_cnt (jobs : List Exec.Job) (fd : Bool) (fm : Int) (c : Config Exec.Shared Exec.Local)
-    (I : ex_FInv jobs fd fm c) (h : Exec.allDone c = true) : rd_cnt (c.locals.map ex_pl) = 0 := by
+theorem ex_allDone_cnt (jobs : List Exec.Job) (fd : Bool) (fm : Int) (dis : Bool) (c : Config Exec.Shared Exec.Local)
+    (I : ex_FInv jobs fd fm dis c) (h : Exec.allDone c = true) : rd_cnt (c.locals.map ex_pl) = 0 := by
   apply ex_cnt_zero
   intro g hg
   simp only [List.mem_map] at hg
@@ -597,13 +716,12 @@ theorem ex_allDone_cnt (jobs : List Exec.Job) (fd : Bool) (fm : Int) (c : Config
   | op => rfl
   | call l fb pc =>
     cases pc <;> simp at hd
-    obtain ⟨_, _, r, hr, _⟩ := hok
-    simp [ex_pl, rd_wL, rd_w, rd_holds, hr]
+    rcases hok.2 with ⟨_, _, _, r, hr, _⟩ | ⟨_, hr, _⟩ <;> simp [ex_pl, rd_wL, rd_w, rd_holds, hr]
 
 /-! ### progress -/
 
-theorem ex_progress (jobs : List Exec.Job) (fd : Bool) (fm : Int) (io : Bool) (c : Config Exec.Shared Exec.Local)
-    (F : ex_FInv jobs fd fm c) (T : rd_TInv io (ex_proj c)) (hnd : Exec.allDone c = false) :
+theorem ex_progress (jobs : List Exec.Job) (fd : Bool) (fm : Int) (dis : Bool) (io : Bool) (c : Config Exec.Shared Exec.Local)
+    (F : ex_FInv jobs fd fm dis c) (T : rd_TInv io (ex_proj c)) (hnd : Exec.allDone c = false) :
     ∃ i l, c.locals[i]? = some l ∧ (Exec.step i c.shared l).isSome = true := by
   -- a call thread still inside `c.run` whose Run thread can step, steps
   have hrun : ∀ i l fb, (∀ r, l.pc ≠ .done r) → (Run.step i c.shared.r l).isSome = true →
@@ -665,6 +783,8 @@ theorem ex_progress (jobs : List Exec.Job) (fd : Bool) (fm : Int) (io : Bool) (c
 
 /-! ### reading the theorems off the invariants -/
 
+theorem ex_directCount (c : Config Exec.Shared Exec.Local) (i : Nat) : Exec.directCount c i = ex_dc i c.shared.direct := rfl
+
 theorem ex_outOf {c : Config Exec.Shared Exec.Local} {i : Nat} {o : Out} (h : Exec.outOf c i = some o) :
     ∃ l fb, c.locals[i]? = some (.call l fb (.done o)) := by
   simp only [Exec.outOf] at h
@@ -676,26 +796,28 @@ theorem ex_outOf {c : Config Exec.Shared Exec.Local} {i : Nat} {o : Out} (h : Ex
   · cases h
 
 theorem ex_runResOf {c : Config Exec.Shared Exec.Local} {i : Nat} {r : Run.Res} (h : Exec.runResOf c i = some r) :
-    ∃ l fb pc, c.locals[i]? = some (.call l fb pc) ∧ pc ≠ .running ∧ l.pc = .done r := by
+    ∃ l fb pc, c.locals[i]? = some (.call l fb pc) ∧ pc ≠ .running ∧ pc ≠ .gate ∧ pc ≠ .passthru ∧ l.pc = .done r := by
   simp only [Exec.runResOf] at h
   split at h
   · rename_i l fb pc hl
     split at h
     · cases h
-    · rename_i hne hr
+    · cases h
+    · cases h
+    · rename_i h1 h2 h3 hr
       simp only [Option.some.injEq] at h
       subst h
-      exact ⟨l, fb, _, hl, fun e => hne e, hr⟩
+      exact ⟨l, fb, _, hl, fun e => h1 e, fun e => h2 e, fun e => h3 e, hr⟩
     · cases h
   · cases h
 
 theorem ex_runResOf_mk {c : Config Exec.Shared Exec.Local} {i : Nat} {l : Run.Local} {fb : FbScript} {pc : Exec.Pc}
-    {r : Run.Res} (hl : c.locals[i]? = some (.call l fb pc)) (hp : pc ≠ .running) (hr : l.pc = .done r) :
-    Exec.runResOf c i = some r := by
+    {r : Run.Res} (hl : c.locals[i]? = some (.call l fb pc)) (hp : pc ≠ .running) (hg : pc ≠ .gate) (hq : pc ≠ .passthru)
+    (hr : l.pc = .done r) : Exec.runResOf c i = some r := by
   obtain ⟨job, lpc, sw⟩ := l
   simp only at hr
   subst hr
-  cases pc <;> first | exact absurd rfl hp | simp only [Exec.runResOf, hl]
+  cases pc <;> first | exact absurd rfl hp | exact absurd rfl hg | exact absurd rfl hq | simp only [Exec.runResOf, hl]
 
 /-- the job a call thread was given -/
 theorem ex_job_exec {jobs : List Exec.Job} {i : Nat} {sc : Run.Script} {fb fb' : FbScript} {j : Run.Job}
@@ -705,27 +827,31 @@ theorem ex_job_exec {jobs : List Exec.Job} {i : Nat} {sc : Run.Script} {fb fb' :
   exact ⟨h.1.symm, h.2.symm⟩
 
 theorem ex_return_value (jobs : List Exec.Job) (fd : Bool) (fm : Int) (c : Config Exec.Shared Exec.Local)
-    (F : ex_FInv jobs fd fm c) (i : Nat) (sc : Run.Script) (fb : FbScript) (o : Out)
+    (F : ex_FInv jobs fd fm false c) (i : Nat) (sc : Run.Script) (fb : FbScript) (o : Out)
     (hj : jobs[i]? = some (.exec sc fb)) (ho : Exec.outOf c i = some o) :
-    ∃ r, Exec.runResOf c i = some r ∧ ex_contract sc fb fd fm r o := by
+    ∃ r, Exec.runResOf c i = some r ∧ ex_contract sc fb fd fm r o ∧ Exec.directCount c i = 0 := by
   obtain ⟨l, fb', hl⟩ := ex_outOf ho
   have hok := F.ok i
   rw [hl] at hok
-  obtain ⟨hjob, _, r, hr, hc⟩ := hok
+  obtain ⟨hjob, hok⟩ := hok
   obtain ⟨h1, rfl⟩ := ex_job_exec hj hjob
-  rw [h1] at hc
-  exact ⟨r, ex_runResOf_mk hl (by simp) hr, hc⟩
+  rcases hok with ⟨_, hdc, _, r, hr, hc⟩ | ⟨hd, _⟩
+  · rw [h1] at hc
+    exact ⟨r, ex_runResOf_mk hl (by simp) (by simp) (by simp) hr, hc, hdc⟩
+  · cases hd
 
-theorem ex_done_events (jobs : List Exec.Job) (fd : Bool) (fm : Int) (c : Config Exec.Shared Exec.Local)
-    (F : ex_FInv jobs fd fm c) (i : Nat) (o : Out) (ho : Exec.outOf c i = some o) :
+theorem ex_done_events (jobs : List Exec.Job) (fd : Bool) (fm : Int) (dis : Bool) (c : Config Exec.Shared Exec.Local)
+    (F : ex_FInv jobs fd fm dis c) (i : Nat) (o : Out) (ho : Exec.outOf c i = some o) :
     ex_fevs i c.shared.fbEvents = ex_outEvs o := by
   obtain ⟨l, fb', hl⟩ := ex_outOf ho
   have hok := F.ok i
   rw [hl] at hok
-  exact hok.2.1
+  rcases hok.2 with ⟨he, _⟩ | ⟨_, _, he, _, ho⟩
+  · exact he
+  · rw [he, ho, ex_outEvs_passOut]
 
-theorem ex_shapes (jobs : List Exec.Job) (fd : Bool) (fm : Int) (c : Config Exec.Shared Exec.Local)
-    (F : ex_FInv jobs fd fm c) (i : Nat) :
+theorem ex_shapes (jobs : List Exec.Job) (fd : Bool) (fm : Int) (dis : Bool) (c : Config Exec.Shared Exec.Local)
+    (F : ex_FInv jobs fd fm dis c) (i : Nat) :
     ex_fevs i c.shared.fbEvents = [] ∨ ex_fevs i c.shared.fbEvents = [.invoked] ∨ ex_fevs i c.shared.fbEvents = [.reject] ∨
       ex_fevs i c.shared.fbEvents = [.invoked, .success] ∨ ex_fevs i c.shared.fbEvents = [.invoked, .failure] := by
   have hok := F.ok i
@@ -733,19 +859,21 @@ theorem ex_shapes (jobs : List Exec.Job) (fd : Bool) (fm : Int) (c : Config Exec
       ex_outEvs o = [.invoked, .success] ∨ ex_outEvs o = [.invoked, .failure] := by
     intro o; cases o <;> simp [ex_outEvs]
   cases hl : c.locals[i]? with
-  | none => rw [hl] at hok; exact Or.inl hok
+  | none => rw [hl] at hok; exact Or.inl hok.1
   | some l =>
     rw [hl] at hok
     cases l with
-    | op => exact Or.inl hok
+    | op => exact Or.inl hok.1
     | call l fb pc =>
       have h2 := hok.2
       cases pc <;> simp only [ex_ok] at h2
       all_goals first
-        | exact Or.inl h2
         | exact Or.inl h2.1
         | exact Or.inr (Or.inl h2.1)
         | (rw [h2.1]; exact hout _)
+        | (rcases h2 with h2 | h2
+           · rw [h2.1]; exact hout _
+           · exact Or.inl h2.2.2.1)
 
 theorem ex_contract_quiet (sc : Run.Script) (fb : FbScript) (fd : Bool) (fm : Int) (r : Run.Res) (o : Out)
     (hc : ex_contract sc fb fd fm r o)
@@ -754,23 +882,24 @@ theorem ex_contract_quiet (sc : Run.Script) (fb : FbScript) (fd : Bool) (fm : In
   rcases h with h | h | h | h | h <;> cases r <;> simp_all [ex_contract, runFailed, runBad] <;>
     (try (repeat' split at hc)) <;> simp_all [ex_outEvs]
 
-theorem ex_not_consulted (jobs : List Exec.Job) (fd : Bool) (fm : Int) (c : Config Exec.Shared Exec.Local)
-    (F : ex_FInv jobs fd fm c) (i : Nat) (sc : Run.Script) (fb : FbScript) (r : Run.Res)
+theorem ex_not_consulted (jobs : List Exec.Job) (fd : Bool) (fm : Int) (dis : Bool) (c : Config Exec.Shared Exec.Local)
+    (F : ex_FInv jobs fd fm dis c) (i : Nat) (sc : Run.Script) (fb : FbScript) (r : Run.Res)
     (hj : jobs[i]? = some (.exec sc fb)) (hr : Exec.runResOf c i = some r)
     (h : runFailed sc r = false ∨ runBad sc r = true ∨ r = .panicked ∨ fd = true ∨ fb.present = false) :
     ex_fevs i c.shared.fbEvents = [] := by
-  obtain ⟨l, fb', pc, hl, hp, hlpc⟩ := ex_runResOf hr
+  obtain ⟨l, fb', pc, hl, hp, hg, hq, hlpc⟩ := ex_runResOf hr
   have hok := F.ok i
   rw [hl] at hok
   obtain ⟨hjob, hok⟩ := hok
   obtain ⟨h1, rfl⟩ := ex_job_exec hj hjob
   rw [h1, hlpc] at hok
-  simp only [ex_sc] at hok
-  have hq : ∀ o, (∃ r', Run.Pc.done r = .done r' ∧ ex_contract sc fb' fd fm r' o) → ex_outEvs o = [] := by
+  have hquiet : ∀ o, (∃ r', Run.Pc.done r = .done r' ∧ ex_contract sc fb' fd fm r' o) → ex_outEvs o = [] := by
     intro o ⟨r', e, hc⟩
     cases e
     exact ex_contract_quiet sc fb' fd fm r o hc h
-  cases pc <;> simp only [ex_ok] at hok
+  cases pc <;> simp only [ex_ok, ex_sc] at hok
+  · exact absurd rfl hg
+  · exact hok.1
   · exact absurd rfl hp
   · exact hok.1
   · exact hok.1
@@ -780,32 +909,35 @@ theorem ex_not_consulted (jobs : List Exec.Job) (fd : Bool) (fm : Int) (c : Conf
   · exact hok.1
   · -- delivering: the fallback was invoked, so none of the reasons not to consult it applies
     exfalso
-    obtain ⟨_, hd, _, _, r', e, h2, h3, h4, h5, h6⟩ := hok
+    obtain ⟨_, _, _, hd, _, _, r', e, h2, h3, h4, h5, h6⟩ := hok
     cases e
     rcases h with h | h | h | h | h <;> simp_all
-  · rw [hok.1]; exact hq _ hok.2
-  · rw [hok.1]; exact hq _ hok.2
+  · rw [hok.1]; exact hquiet _ hok.2.2.2
+  · rcases hok with hok | hok
+    · rw [hok.1]; exact hquiet _ hok.2.2.2
+    · exact hok.2.2.1
 
 theorem ex_limit_nonneg (sc : Run.Script) (fb : FbScript) (fd : Bool) (fm : Int) (r : Run.Res)
     (hc : ex_contract sc fb fd fm r .limit) : 0 ≤ fm := by
   cases r <;> simp only [ex_contract, reduceCtorEq] at hc <;> (repeat' split at hc) <;> simp_all
 
-theorem ex_never_limit (jobs : List Exec.Job) (fd : Bool) (fm : Int) (c : Config Exec.Shared Exec.Local)
-    (F : ex_FInv jobs fd fm c) (hfm : fm < 0) (i : Nat) : Exec.outOf c i ≠ some .limit := by
+theorem ex_never_limit (jobs : List Exec.Job) (fd : Bool) (fm : Int) (dis : Bool) (c : Config Exec.Shared Exec.Local)
+    (F : ex_FInv jobs fd fm dis c) (hfm : fm < 0) (i : Nat) : Exec.outOf c i ≠ some .limit := by
   intro ho
   obtain ⟨l, fb', hl⟩ := ex_outOf ho
   have hok := F.ok i
   rw [hl] at hok
-  obtain ⟨_, _, r, _, hc⟩ := hok
-  have := ex_limit_nonneg _ _ _ _ _ hc
-  omega
+  rcases hok.2 with ⟨_, _, _, r, _, hc⟩ | ⟨_, _, _, _, ho⟩
+  · have := ex_limit_nonneg _ _ _ _ _ hc
+    omega
+  · exact ex_passOut_ne_limit _ ho
 
 theorem ex_run_events (jobs : List Exec.Job) (c : Config Exec.Shared Exec.Local)
     (E : rd_EInv (jobs.map ex_pj) (ex_proj c)) (i : Nat) (sc : Run.Script) (fb : FbScript) (r : Run.Res)
     (hj : jobs[i]? = some (.exec sc fb)) (hr : Exec.runResOf c i = some r) :
     re_expected sc r (Exec.runEventsOf c i) ∧
     Exec.runInvokedCount c i = (match (generalizing := false) r with | .ran _ | .panicked => 1 | _ => 0) := by
-  obtain ⟨l, fb', pc, hl, hp, hlpc⟩ := ex_runResOf hr
+  obtain ⟨l, fb', pc, hl, hp, _, _, hlpc⟩ := ex_runResOf hr
   have hj' : (jobs.map ex_pj)[i]? = some (.run (.call sc)) := by simp [List.getElem?_map, hj, ex_pj]
   have hr' : RunDyn.resultOf (ex_proj c) i = some r := by
     obtain ⟨job, lpc, sw⟩ := l
@@ -813,5 +945,136 @@ theorem ex_run_events (jobs : List Exec.Job) (c : Config Exec.Shared Exec.Local)
     subst hlpc
     simp [RunDyn.resultOf, ex_proj, List.getElem?_map, hl, ex_pl]
   exact rd_exact (jobs.map ex_pj) (ex_proj c) E i sc r hj' hr'
+
+/-! ### the kill switch -/
+
+/-- with the kill switch on a call thread of an `exec` job never leaves the gate / the direct call -/
+theorem ex_kill_exec (jobs : List Exec.Job) (fd : Bool) (fm : Int) (c : Config Exec.Shared Exec.Local)
+    (F : ex_FInv jobs fd fm true c) (i : Nat) (sc : Run.Script) (fb : FbScript) (hj : jobs[i]? = some (.exec sc fb)) :
+    ex_fevs i c.shared.fbEvents = [] ∧ ex_dc i c.shared.direct ≤ 1 ∧
+      (∀ l fb' pc, c.locals[i]? = some (.call l fb' pc) → l.job = .call sc ∧ l.pc = .aFO) ∧
+      ∀ o, Exec.outOf c i = some o → o = ex_passOut sc ∧ ex_dc i c.shared.direct = 1 := by
+  have hok := F.ok i
+  cases hl : c.locals[i]? with
+  | none =>
+    rw [hl] at hok
+    refine ⟨hok.1, by rw [hok.2]; decide, (fun _ _ _ e => by cases e), ?_⟩
+    intro o ho; simp [Exec.outOf, hl] at ho
+  | some x =>
+    rw [hl] at hok
+    cases x with
+    | op =>
+      refine ⟨hok.1, by rw [hok.2]; decide, (fun _ _ _ e => by cases e), ?_⟩
+      intro o ho; simp [Exec.outOf, hl] at ho
+    | call l fb' pc =>
+      obtain ⟨hjob, hok⟩ := hok
+      obtain ⟨h1, rfl⟩ := ex_job_exec hj hjob
+      have hnm : ¬ ex_man l.job := fun h => h sc h1
+      have key : ex_fevs i c.shared.fbEvents = [] ∧ ex_dc i c.shared.direct ≤ 1 ∧ l.pc = .aFO ∧
+          ∀ o, pc = .done o → o = ex_passOut sc ∧ ex_dc i c.shared.direct = 1 := by
+        cases pc <;> simp only [ex_ok] at hok
+        · exact ⟨hok.1, by rw [hok.2.1]; decide, hok.2.2, fun _ e => by cases e⟩
+        · exact ⟨hok.1, by rw [hok.2.1]; decide, hok.2.2.1, fun _ e => by cases e⟩
+        · exact absurd (hok.2.2 trivial) hnm
+        · exact absurd (hok.2.2.2 trivial).2 hnm
+        · exact absurd hok.2.2.1 (by simp)
+        · exact absurd hok.2.2.1 (by simp)
+        · exact absurd hok.2.2.1 (by simp)
+        · exact absurd hok.2.2.1 (by simp)
+        · exact absurd hok.2.2.1 (by simp)
+        · exact absurd hok.2.2.1 (by simp)
+        · exact absurd hok.2.2.1 (by simp)
+        · rcases hok with hok | ⟨_, hlpc, he, hdc, ho⟩
+          · exact absurd (hok.2.2.1 trivial) hnm
+          · refine ⟨he, by rw [hdc]; decide, hlpc, ?_⟩
+            intro o e
+            cases e
+            rw [h1] at ho
+            exact ⟨ho, hdc⟩
+      refine ⟨key.1, key.2.1, ?_, ?_⟩
+      · intro l2 fb2 pc2 e
+        cases e
+        exact ⟨h1, key.2.2.1⟩
+      · intro o ho
+        obtain ⟨l2, fb2, hl2⟩ := ex_outOf ho
+        rw [hl] at hl2
+        cases hl2
+        exact key.2.2.2 o rfl
+
+/-- … so it tells the run collectors nothing -/
+theorem ex_kill_run_events (jobs : List Exec.Job) (fd : Bool) (fm : Int) (c : Config Exec.Shared Exec.Local)
+    (I : ex_Inv jobs fd fm true c) (i : Nat) (sc : Run.Script) (fb : FbScript) (hj : jobs[i]? = some (.exec sc fb)) :
+    re_evs i c.shared.r.events = [] := by
+  have hE := I.E i
+  obtain ⟨_, _, hK, _⟩ := ex_kill_exec jobs fd fm c I.F i sc fb hj
+  cases hl : c.locals[i]? with
+  | none =>
+    have : (ex_proj c).locals[i]? = none := by simp [ex_proj, List.getElem?_map, hl]
+    rw [this] at hE
+    exact hE
+  | some x =>
+    cases x with
+    | op a b k st =>
+      have : (ex_proj c).locals[i]? = some (.op a b k st) := by simp [ex_proj, List.getElem?_map, hl, ex_pl]
+      rw [this] at hE
+      exact hE.2
+    | call l fb' pc =>
+      have : (ex_proj c).locals[i]? = some (.call l) := by simp [ex_proj, List.getElem?_map, hl, ex_pl]
+      rw [this] at hE
+      obtain ⟨h1, h2⟩ := hK l fb' pc hl
+      obtain ⟨job, lpc, sw⟩ := l
+      simp only at h1 h2
+      subst h1 h2
+      exact hE.2
+
+/-- … and with the kill switch on nobody holds a slot of either bulkhead -/
+theorem ex_kill_gauges (jobs : List Exec.Job) (fd : Bool) (fm : Int) (c : Config Exec.Shared Exec.Local)
+    (I : ex_Inv jobs fd fm true c) : rd_cnt (c.locals.map ex_pl) = 0 ∧ (c.locals.map ex_glL).countP inRegion = 0 := by
+  constructor
+  · apply ex_cnt_zero
+    intro g hg
+    simp only [List.mem_map] at hg
+    obtain ⟨l, hl, rfl⟩ := hg
+    obtain ⟨i, hi⟩ := List.mem_iff_getElem?.mp hl
+    have hok := I.F.ok i
+    rw [hi] at hok
+    cases l with
+    | op => rfl
+    | call l fb pc =>
+      have hman : ex_man l.job → rd_w l.pc = 0 := by
+        intro hm
+        rcases ex_man_done _ c I.E i l fb pc hi hm with h | ⟨tl, h⟩ <;> simp [rd_w, rd_holds, h]
+      have hafo : l.pc = .aFO → rd_w l.pc = 0 := by intro h; simp [rd_w, rd_holds, h]
+      have h2 := hok.2
+      simp only [ex_pl, rd_wL]
+      cases pc <;> simp only [ex_ok] at h2
+      · exact hafo h2.2.2
+      · exact hafo h2.2.2.1
+      · exact hman (h2.2.2 trivial)
+      · exact hman (h2.2.2.2 trivial).2
+      · exact absurd h2.2.2.1 (by simp)
+      · exact absurd h2.2.2.1 (by simp)
+      · exact absurd h2.2.2.1 (by simp)
+      · exact absurd h2.2.2.1 (by simp)
+      · exact absurd h2.2.2.1 (by simp)
+      · exact absurd h2.2.2.1 (by simp)
+      · exact absurd h2.2.2.1 (by simp)
+      · rcases h2 with h2 | h2
+        · exact hman (h2.2.2.1 trivial)
+        · exact hafo h2.2.1
+  · rw [List.countP_eq_zero]
+    intro g hg
+    simp only [List.mem_map] at hg
+    obtain ⟨l, hl, rfl⟩ := hg
+    obtain ⟨i, hi⟩ := List.mem_iff_getElem?.mp hl
+    have hok := I.F.ok i
+    rw [hi] at hok
+    cases l with
+    | op => simp [ex_glL, inRegion]
+    | call l fb pc =>
+      have h2 := hok.2
+      cases pc <;> simp only [ex_ok] at h2 <;> first
+        | (simp [ex_glL, ex_gl, inRegion]; done)
+        | exact absurd h2.2.2.1 (by simp)
 
 end CM.Lemmas.ExecL
